@@ -12,7 +12,7 @@ ASSUMPTIONS = ["reference AES written from FIPS-197, self-tested against FIPS-19
 NSHARDS = {"quick": 16, "thorough": 32}
 BUDGET_S = {"quick": 200, "thorough": 1500}
 MIN_HITS = {
-    'quick': {"enc": 547, "dec": 547, "ctr_carry": 44, "bad_pad": 896, "bad_len": 2209},
+    'quick': {"enc": 547, "dec": 547, "ctr_carry": 44, "bad_pad": 1792, "bad_len": 2209},
     'thorough': {"enc": 46581, "dec": 46581, "ctr_carry": 1934, "bad_pad": 107520, "bad_len": 12630},
 }
 MODES = {"128cbc": 16, "256cbc": 32, "128ctr": 16, "256ctr": 32}
